@@ -670,3 +670,97 @@ func VerifC15StaticChecks() {
 	vassert(rerr != nil, "an ill-typed declaration that compiled must at least fail the run")
 	vassert(!strings.Contains(rerr.Error(), "panic"), "with an ordinary error, not a recovered panic")
 }
+
+type c15AnySrc struct {
+	A any
+	P *int
+}
+type c15PtrMapDst struct{ M map[string]*c15Leaf }
+
+// run-time-only situations around nil and pointers: each ends in a result or an ordinary error, never a panic
+func VerifC15RuntimeNil() {
+	ctx := context.Background()
+	vcfg("fifo", 1)
+	vcfg("selectfirst", 1)
+	kind := vchoose("kind", 4)
+	var run func(stream bool) error
+	switch kind {
+	case 0: // a nil value of an any-typed source field mapped to the whole (any-typed) input of END
+		wf := NewWorkflow[c15AnySrc, any]()
+		wf.End().AddInput(START, FromField("A"))
+		r, err := wf.Compile(ctx)
+		vassert(err == nil, "compiles")
+		run = func(stream bool) error {
+			if stream {
+				sr, e := r.Stream(ctx, c15AnySrc{})
+				if e != nil {
+					return e
+				}
+				defer sr.Close()
+				_, e = sr.Recv()
+				if e == io.EOF {
+					return nil
+				}
+				return e
+			}
+			_, e := r.Invoke(ctx, c15AnySrc{})
+			return e
+		}
+	case 1: // a nil value of an any-typed source field mapped to a key of a map of pointers
+		wf := NewWorkflow[c15AnySrc, c15PtrMapDst]()
+		wf.End().AddInput(START, MapFieldPaths(FieldPath{"A"}, FieldPath{"M", "k"}))
+		r, err := wf.Compile(ctx)
+		if err != nil {
+			return
+		}
+		run = func(stream bool) error {
+			if stream {
+				sr, e := r.Stream(ctx, c15AnySrc{})
+				if e != nil {
+					return e
+				}
+				defer sr.Close()
+				_, e = sr.Recv()
+				if e == io.EOF {
+					return nil
+				}
+				return e
+			}
+			_, e := r.Invoke(ctx, c15AnySrc{})
+			return e
+		}
+	case 2, 3: // a path below an any-typed value that holds a pointer to a non-struct / a non-struct
+		wf := NewWorkflow[map[string]any, map[string]any]()
+		wf.End().AddInput(START, MapFieldPaths(FieldPath{"F1", "x"}, FieldPath{"out"}))
+		r, err := wf.Compile(ctx)
+		vassert(err == nil, "compiles (the type below the any value is only known at run time)")
+		n := 5
+		var v any = &n
+		if kind == 3 {
+			v = 5
+		}
+		run = func(stream bool) error {
+			if stream {
+				sr, e := r.Stream(ctx, map[string]any{"F1": v})
+				if e != nil {
+					return e
+				}
+				defer sr.Close()
+				_, e = sr.Recv()
+				if e == io.EOF {
+					return nil
+				}
+				return e
+			}
+			_, e := r.Invoke(ctx, map[string]any{"F1": v})
+			return e
+		}
+	}
+	rerr := run(vchoose("stream", 2) == 1)
+	if kind >= 2 {
+		vassert(rerr != nil, "a path below a value that has no fields is a run-time error")
+	}
+	if rerr != nil {
+		vassert(!strings.Contains(rerr.Error(), "panic"), "reported as an ordinary error, not a recovered panic")
+	}
+}
